@@ -3,6 +3,7 @@ package coder
 import (
 	"encoding/binary"
 	"errors"
+	"fmt"
 
 	"github.com/plgd-dev/go-coap/v3/message"
 	"github.com/plgd-dev/go-coap/v3/message/codes"
@@ -16,6 +17,8 @@ const (
 	MessageLength14Base = 269
 	MessageLength15Base = 65805
 	messageMaxLen       = 0x7fff0000 // Large number that works in 32-bit builds
+	// maxCode is the largest code that fits into the 8-bit code field of the message header.
+	maxCode = codes.Code(0xff)
 )
 
 type Coder struct{}
@@ -88,6 +91,9 @@ func (c *Coder) Encode(m message.Message, buf []byte) (int, error) {
 
 	if len(m.Token) > message.MaxTokenSize {
 		return -1, message.ErrInvalidTokenLen
+	}
+	if m.Code > maxCode {
+		return -1, fmt.Errorf("invalid Code(%v)", m.Code)
 	}
 
 	payloadLen := len(m.Payload)
